@@ -44,7 +44,8 @@ def run(tier):
                 im = 1   # the model with a nugget effect
                 cases.append({"cfg": c["cfg"], "sys": c["sys"], "run": {"mode": "system", "neigh": nk, "model": im, "target": 1, "perm": 0, "tcoin": True}})
         # consecutive targets with different neighbourhoods in one run (first one possibly heterotopic)
-        if c["cfg"]["target"] == "point":
+        # (the second cluster holds 4 samples: not enough for the functions of a quadratic drift)
+        if c["cfg"]["target"] == "point" and c["cfg"]["drift"] != "QUAD":
             for im in (0, 1):
                 cases.append({"cfg": c["cfg"], "sys": c["sys"], "run": {"mode": "cluster", "neigh": "moving", "model": im}})
     if not cases:
